@@ -37,6 +37,12 @@ type ATEpisode struct {
 	// issued by an actor of their own, which the scheduler interleaves with the
 	// statements of the rollback transaction
 	RaceForeign bool `json:"race_foreign,omitempty"`
+	// otherRow (observed, not planned): an upsert of the episode met its
+	// duplicate on a row with another primary key than the one it names
+	otherRow bool
+	// blindRow (observed): an upsert inserted a row with a generated primary key
+	// and NULL in every unique index - nothing in the statement identifies it
+	blindRow bool
 	// Redeliver: extra BranchRollback deliveries after the first round (C10)
 	Redeliver int `json:"redeliver,omitempty"`
 	// P2Faults (non-nil): database faults armed when phase one is over, counted from there (C10)
@@ -386,6 +392,16 @@ func (r *atRun) runEpisode(idx int, ep *ATEpisode) *episodeObs {
 		return sim.Enabled() == 0 && tc.PendingP2() == 0 && sim.Now()-t1 > 5*time.Second
 	})
 	o.final = w.Srv.Snapshot()
+	for _, e := range w.Srv.JournalFrom(o.jstart) {
+		for _, n := range e.Notes {
+			if n == "dup-on-other-row" && !r.isHarnessConn(e.Conn) {
+				ep.otherRow = true
+			}
+			if n == "upsert-new-row-auto-pk-null-unique" && !r.isHarnessConn(e.Conn) {
+				ep.blindRow = true
+			}
+		}
+	}
 	if o.xid == "" {
 		// the global transaction never began: whatever the episode meant to exercise did not happen
 		sim.Probe("episode-without-global-transaction")
@@ -1025,8 +1041,15 @@ func (r *atRun) checkC01(o *episodeObs, faultFree bool) {
 
 // epFeatures names the statement features of an episode that known findings are keyed on.
 func epFeatures(ep *ATEpisode) string {
+	if ep.otherRow {
+		return "-upsert-uniq-other-row"
+	}
+	if ep.blindRow {
+		return "-upsert-unidentified-new-row"
+	}
 	for _, br := range ep.Branches {
 		for _, st := range br.Stmts {
+
 			if st.Kind == "upsert" && strings.Count(st.SQL[:strings.Index(st.SQL+" ON DUPLICATE", " ON DUPLICATE")], "), (") > 0 {
 				return "-multirow-upsert"
 			}
@@ -1103,6 +1126,7 @@ func genATPlanTweaked(seed uint64, tier, mode string, tweak func(g *simkit.Gen, 
 	p.Opts.Params = g.Prob(0.8)
 	p.Opts.DedicatedConn = g.Prob(0.15)
 	p.Opts.UniqueIndex = g.Prob(0.25)
+	p.Opts.UpsertOtherRow = p.Opts.UniqueIndex && g.Prob(0.15)
 	if g.Prob(0.06) {
 		// preset: undo logs dominated by one high-entropy value, under a
 		// compressor (a block compressor refuses what it cannot shrink)
